@@ -766,7 +766,24 @@ impl Shape {
             let cs = word_chars(&tok, 0).to_vec();
             let ws = word.slice.0;
             let strip0 = |x: &[char]| x.iter().filter(|c| **c != '\0').collect::<String>();
-            for plen in 1..=cs.len() {
+            // typed letter by letter, then - one word in three - mistyped at full length and deleted letter by letter again
+            // (every query then no longer than the one before it)
+            let mut order: Vec<usize> = (1..=cs.len()).collect();
+            let backspace = cs.len() >= 2 && cx.rng.chance(1, 3);
+            if backspace {
+                order.push(0);
+                order.extend((1..cs.len()).rev());
+                cx.count("words typed, mistyped at full length and deleted again letter by letter");
+            }
+            for plen in order {
+                if plen == 0 {
+                    // the mistyped spelling: last letter replaced (its answer is not judged here)
+                    let mut m = cs.clone();
+                    let last = m.len() - 1;
+                    m[last] = if m[last] == 'x' { 'o' } else { 'x' };
+                    let _ = st.search(&s(&m));
+                    continue;
+                }
                 if !cs[plen - 1].is_alphanumeric() {
                     continue;
                 }
@@ -774,6 +791,14 @@ impl Shape {
                 if !oracle::stable(&st.store.lang, &q, &[&cs[..plen]]) {
                     cx.count("skipped_unstable");
                     continue;
+                }
+                if backspace && plen >= 2 {
+                    // the letter just typed was first mistyped and is corrected in place: the query before the judged one
+                    // has the same length and differs in its last letter only
+                    let mut m = cs[..plen].to_vec();
+                    m[plen - 1] = if m[plen - 1] == 'x' { 'o' } else { 'x' };
+                    let _ = st.search(&s(&m));
+                    cx.count("exact prefixes typed right after the same prefix with its last letter mistyped");
                 }
                 cx.ctx(format!("C05c lang={} title={:?} q={:?}", lang, title, q));
                 let hits = st.search(&q);
@@ -867,7 +892,7 @@ impl Prop for Shape {
     fn floors(&self) -> Vec<(&'static str, u64, u64)> {
         match self.0 {
             Which::Titles => vec![("hit with span", 2000, 20000), ("hit whose title needed composition", 50, 500), ("hit with expanding letter", 50, 500), ("hit whose title has NUL", 30, 300), ("hit whose title contains marker text", 50, 500), ("bridge searches with hits", 200, 2000), ("empty-query searches", 100, 1000), ("stores cleared and refilled before a search", 1000, 10000), ("stores of 70-150 records with one very long title", 100, 5000)],
-            Which::Related => vec![("hit with fuzzy span", 200, 2000), ("hit with joined-record spans", 20, 200), ("exact-prefix case", 2000, 20000), ("exact-prefix ending inside an expanded letter", 5, 50), ("corpus-store searches", 300, 8000), ("corpus-store searches with more than 8 query words", 50, 1200), ("big-catalogue searches", 100, 1000), ("registry searches", 3000, 30000), ("stores with a 16-bit look-alike gram pair", 100, 1000), ("stores cleared and refilled before a search", 1000, 10000), ("session searches on one store", 600000, 4000000), ("session hits judged", 60000, 400000)],
+            Which::Related => vec![("hit with fuzzy span", 200, 2000), ("hit with joined-record spans", 20, 200), ("exact-prefix case", 2000, 20000), ("words typed, mistyped at full length and deleted again letter by letter", 300, 3000), ("exact prefixes typed right after the same prefix with its last letter mistyped", 1000, 10000), ("exact-prefix ending inside an expanded letter", 5, 50), ("corpus-store searches", 300, 8000), ("corpus-store searches with more than 8 query words", 50, 1200), ("big-catalogue searches", 100, 1000), ("registry searches", 3000, 30000), ("stores with a 16-bit look-alike gram pair", 100, 1000), ("stores cleared and refilled before a search", 1000, 10000), ("session searches on one store", 600000, 4000000), ("session hits judged", 60000, 400000)],
             Which::Markup => vec![("hit with 2+ spans", 500, 5000), ("stores cleared and refilled before a search", 1000, 10000), ("joined-record split (more spans than query words)", 20, 200), ("hit of separator-only query", 200, 2000), ("span in title with padding", 30, 300), ("joined-with-typos hits with 2+ spans and typos", 2000, 100000), ("stores with opening and closing markers of different lengths", 1000, 10000), ("hits with more than 255 highlighted words", 100, 1000)],
         }
     }
